@@ -103,6 +103,11 @@ type Machine struct {
 	model       Model // a model of the current path condition, or nil
 	noCache     bool
 	noConcretize map[*Term]bool
+	frameMark    int      // >0: stores by non-harness code into objects older than this frame serial are recorded
+	frameViol    []string
+	workerBase   int
+	workerStores map[Loc]bool
+	workerConflicts []string
 	tier        string
 	fresh       int
 }
